@@ -346,3 +346,30 @@ def r5(cx):
                 ob.sp(bad[0][0], bad[0][1]), bad[0][2]), [ob.sp(bad[0][0], bad[0][1])])
         else:
             cx.passed(CS + "get_opts", "answers-only-after-lookup", [ob.sp(sorted(srcs)[0])])
+
+
+@rule("C16", "R6", "what is handed back on the cached path is the cached buffer, whole: the payload of the GetResult built by CachedObjectStore::get is a one-item stream of the cached bytes - "
+      "not pieces cut from it by a routine of the crate (a piece count rounded down loses the tail while meta.size and range still announce the full object)")
+def r6(cx):
+    gk = CS + "get::{closure#0}"
+    b = cx.body(gk)
+    if b is None:
+        cx.violation(CS + "get", "anchor-missing", "body not found", [])
+        return
+    aggs = M.aggregates(b, lambda rv: rv.get("ak") == "adt" and (rv.get("adt") or "").endswith("object_store::GetResult"))
+    if not cx.floor("GetResult constructions in CachedObjectStore::get", len(aggs), 1, gk):
+        return
+    for (bi, si, st) in aggs:
+        rv = st["rv"]
+        if "payload" not in (rv.get("fields") or []):
+            continue
+        o = M.operand_origins(b, rv["ops"][rv["fields"].index("payload")], at=(bi, si))
+        calls = {x[1][1] for x in o if x[0] == "call"}
+        local = sorted(c for c in calls if c in cx.prog.calls or c.startswith(("query::", "<query::")))
+        cutting = sorted(c for c in calls if re.search(r"Bytes::(slice|split_to|split_off|truncate|slice_ref)$|stream::iter$|Iterator::map$", c))
+        once = any(c.endswith("stream::once") or c.endswith("stream::once::once") for c in calls)
+        if once and not local and not cutting:
+            cx.passed(CS + "get", "payload-is-the-whole-cached-buffer", [b.sp(bi, si)])
+        else:
+            cx.violation(CS + "get", "payload-is-the-whole-cached-buffer", "%s: the payload returned on the cached path is built by %s rather than a one-item stream of the cached bytes: a reader can "
+                         "receive fewer (or other) bytes than the backing store holds although size and range say otherwise" % (b.sp(bi, si), local or cutting or sorted(calls)[:3]), [b.sp(bi, si)])
